@@ -328,11 +328,13 @@ def redirect_events(ctx, rng):
     A = {"kind": "name", "labels": ["a", "test"]}
     Bh = {"kind": "name", "labels": ["b", "test"]}
     for exempt in ("a", "b"):
-        for entry_kind in ("host", "dot"):
+        for entry_kind in ("host", "dot", "star", "star_padded"):
             for via in ("option", "env"):
                 for np_src in ("option", "no_proxy", "NO_PROXY"):
                     ex_host = A if exempt == "a" else Bh
                     entry = {"kind": "host", "labels": ex_host["labels"]} if entry_kind == "host" else {"kind": "dot", "labels": ex_host["labels"]}
+                    if entry_kind.startswith("star"):
+                        entry = {"kind": "star"}          # "*" exempts every hop
                     resolved = []
 
                     def factory(world, sock, address):
